@@ -88,7 +88,12 @@ def tokenise(markup):
 def expected(markup):
     """(visible data, hidden data) of a document: reference events classified by the region spec; every token of the
     markup that is not visible data (comment text, buffered remainder, attribute values) is expected to be absent."""
-    ev = tokenise(markup)
+    try:
+        ev = tokenise(markup)
+    except Exception as e:  # noqa
+        # html.parser itself refuses the document (malformed marked section): there is no reference event stream, hence no
+        # visible text to insist on -- but whatever the reader returns must still not contain the content written as removed
+        return [("X", f"{type(e).__name__}: {e}")], [], sorted(t for t in tokens([markup]) if t.startswith("HID"))
     vis, hid = classify(ev)
     rest = sorted(tokens([markup]) - tokens(vis) - tokens(hid))
     return ev, vis, hid + rest
@@ -254,6 +259,73 @@ def is_extraction_error(e):
         return False
 
 
+def parser_error_docs():
+    """Documents html.parser refuses (a malformed marked section raises inside feed()): removed content before and after."""
+    bad = ["<![ endif]>", "<![x[", "<![if", "<![ if !mso]>"]
+    return [f"<html><head><style>.HIDs {{}}</style></head><body><p>VISa</p><script>var HIDa;</script><noscript>HIDb</noscript>"
+            f"<iframe src=x>HIDc</iframe><!-- HIDd -->{b}<object data=x>HIDe</object><p>VISb</p></body></html>" for b in bad]
+
+
+def meta_docs():
+    """Document metadata with unusual values (charset labels Python has no codec for, empty / odd attributes): whatever the
+    metadata code does with them, removed content stays removed and visible text stays."""
+    labels = ["iso-8859-8-i", "windows-874", "unicode", "x-user-defined", "x-sjis", "", "utf8", " UTF-8 ", "none", "x" * 70, "utf-8;q=1", "\u00e9"]
+    docs = []
+    for l in labels:
+        docs.append(f"<html><head><meta charset='{l}'><style>.HIDs {{}}</style></head><body><p>VISa</p><script>var HIDa;</script><noscript>HIDb</noscript><p>VISb</p></body></html>")
+        docs.append(f"<html><head><meta http-equiv='Content-Type' content='text/html; charset={l}'></head><body><p>VISa</p><!-- HIDa --><iframe>HIDb</iframe><p>VISb</p></body></html>")
+    for extra in ["<meta name='description'>", "<meta name='keywords' content>", "<meta content='x'>", "<meta http-equiv='refresh'>", "<base>", "<link rel=x>",
+                  "<meta name='author' content=''>", "<html lang>", "<meta property='og:title'>"]:
+        docs.append(f"<html><head>{extra}</head><body><p>VISa</p><script>var HIDa;</script><object>HIDb</object><p>VISb</p></body></html>")
+    return docs
+
+
+CONTROL = {}     # document -> the same document written without its removed elements / comments (structure_docs)
+
+
+def lost_without_removal_too(fn, markup, out, vis):
+    """The property is about what REMOVAL does.  For a document with a control (the same markup without the removed elements):
+    visible tokens that the entry point loses from the control as well are lost by the rendering of the surrounding structure,
+    not by the removal -> not a C17 failure (leaked removed text always is).  -> True iff every lost token is lost there too."""
+    control = CONTROL.get(markup)
+    if control is None:
+        return False
+    missing = tokens(vis) - tokens([out])
+    if not missing:
+        return False
+    try:
+        cout = fn(control)
+    except Exception:  # noqa
+        return False
+    return missing <= (tokens(vis) - tokens([cout]))
+
+
+def structure_docs():
+    """Elements the rendering side treats specially (tables, lists, headings, links, images, line breaks, rules, block
+    containers) in their degenerate forms -- empty, without the usual attributes / parents / children, nested in themselves --
+    next to removed content: whatever the renderer does with them, removed content stays removed and the visible text around
+    them stays (a renderer that raises makes the MSG converter fall back to the raw markup)."""
+    forms = ["<table></table>", "<table><tr></tr></table>", "<table><tr><td></td></tr></table>", "<table><td>cell</td></table>",
+             "<tr><td>cell</td></tr>", "<td>cell</td>", "<th></th>", "<table><tbody></tbody></table>", "<table><caption>cap</caption></table>",
+             "<table><tr><th>cell</th><td></td></tr><tr><td>cell</td><td>cell</td><td>cell</td></tr><tr></tr></table>",
+             "<table><tr><td><table></table></td></tr></table>", "<table><tr><td colspan=x rowspan>cell</td></tr></table>",
+             "<ul></ul>", "<ol></ol>", "<li>item</li>", "<li></li>", "<ul><li>item<ul><li></li></ul></li></ul>", "<ol start=x><li value><p>item</p></ol>",
+             "<dl><dt><dd></dl>", "<h1></h1>", "<h2> </h2>", "<h3><b></b></h3>", "<h6><h1>text</h1></h6>", "<h7>text</h7>", "<h>text</h>",
+             "<h1x>text</h1x>", "<hgroup></hgroup>", "<a>text</a>", "<a href>text</a>", "<a href=''>text</a>", "<a href=u></a>", "<a name=n></a>",
+             "<a href=u><img src=x></a>", "<a href=u><a>text</a></a>", "<img>", "<img alt>", "<img src='' alt='' width=x>", "<br>", "<hr>", "<br/>",
+             "<hr/>", "<br></br>", "</br>", "<p></p>", "</p>", "<div></div>", "<span/>", "<pre>\n</pre>", "<blockquote></blockquote>",
+             "<x-custom>text</x-custom>", "<svg><path d=''/></svg>", "<select><option>text</select>", "<form><input><button></button></form>",
+             "<font size=x color></font>", "<div style='' class id=''></div>", "<p align></p>", "&nbsp;&#0;&#x110000;&bogus;"]
+    docs = []
+    for f in forms:
+        for d, control in ((f"<html><body><p>VISa</p><script>var HIDa;</script>{f}<noscript>HIDb</noscript><p>VISb</p></body></html>",
+                            f"<html><body><p>VISa</p>{f}<p>VISb</p></body></html>"),
+                           (f"{f}<p>VISa</p><!-- HIDa --><object data=x>HIDb</object>{f}<p>VISb</p>", f"{f}<p>VISa</p>{f}<p>VISb</p>")):
+            docs.append(d)
+            CONTROL[d] = control
+    return docs
+
+
 def line_start_docs():
     """Multi-line documents with lines that START with `--` inside the HTML: the end of a multi-line comment, a CSS custom
     property, a decrement statement in a script (a MIME boundary line also starts with `--`)."""
@@ -302,6 +374,8 @@ def check_markup(markup, only=None, skip=()):
                 continue        # the reader reported a failure (C01's surface): there is no extracted text to judge
             out = f"<{type(e).__name__}: {e}>"
         bad = judge(out, vis, hid)
+        if bad and not (tokens(hid) & tokens([out])) and lost_without_removal_too(fn, markup, out, vis):
+            bad = None
         if bad:
             return {"reproduced": True, "target": name, "inputs": {"markup": markup if len(markup) < 4000 else markup[:300] + " ...", "events": ev[:40],
                                                                   "markup_builder": builder_of(markup)},
@@ -510,6 +584,9 @@ def grammar():
              "<!-- HIDa --><p>VISa</p><script>// --> HIDb</script><p>VISb</p>", "<p>VISa</p><!-- HIDa -- HIDb --><p>VISb</p>", "<p>VISa</p><!--HIDa--!><p>VISb</p>"]
     docs += literal_docs()
     docs += conditional_comment_docs()
+    docs += meta_docs()
+    docs += structure_docs()
+    docs += parser_error_docs()
     docs += long_prefix_docs()
     docs += line_start_docs()
     docs += deep_docs()
@@ -750,6 +827,8 @@ def recorded_known_docs(searching_for=""):
                     continue        # the search IS for the recorded finding's own obligation
                 if f.get("property") == "C17" and w.get("markup_builder"):
                     out.append(dict(w["markup_builder"], only=w.get("only")))
+                    for fam in w.get("families") or []:       # other document families that fail for the same recorded cause
+                        out.append({"fn": fam, "index": 0, "only": w.get("only")})
     except Exception:  # noqa
         pass
     return out
